@@ -142,18 +142,24 @@ Proof. unfold H_exec. rewrite d2u_norm_nocr; [reflexivity|]. unfold as_bytes. ap
 
 (* ------------------------------------------------------------------ C01 for the executed model *)
 Theorem C01_step_exec st o :
-  Inv H_exec st -> WfOp H_exec st o -> Inv H_exec (step H_exec st o).
+  Inv H_exec st -> WfOp H_exec st o -> keeps_class o -> Inv H_exec (step H_exec st o).
 Proof. apply C01_step; [apply H_exec_not_dir|apply H_exec_d2u_listing]. Qed.
 
 Theorem C01_history_exec cfg ops n :
-  WfHist H_exec (init_state cfg) ops ->
+  WfHist H_exec (init_state cfg) ops -> KeepsClass ops ->
   Inv H_exec (fold_left (step H_exec) (firstn n ops) (init_state cfg)).
 Proof. apply C01_history; [apply H_exec_not_dir|apply H_exec_d2u_listing]. Qed.
 
 Theorem C01_history_checked_exec cfg ops n :
-  wf_hist_b H_exec (init_state cfg) ops = true ->
+  wf_hist_b H_exec (init_state cfg) ops = true -> forallb keeps_class_b ops = true ->
   Inv H_exec (fold_left (step H_exec) (firstn n ops) (init_state cfg)).
 Proof. apply C01_history_checked; [apply H_exec_not_dir|apply H_exec_d2u_listing]. Qed.
+
+Theorem C01_history_leftover_checked_exec cfg ops n :
+  wf_hist_b H_exec (init_state cfg) ops = true ->
+  InvE H_exec (leftover_hist H_exec (init_state cfg) (firstn n ops) lempty)
+       (fold_left (step H_exec) (firstn n ops) (init_state cfg)).
+Proof. apply C01_history_leftover_checked; [apply H_exec_not_dir|apply H_exec_d2u_listing]. Qed.
 
 (* ------------------------------------------------------------------ non-vacuity *)
 (* a concrete history: stage a nested tree with dos2unix twins into a local md5-dos2unix store,
@@ -181,7 +187,26 @@ Example ex_sizes :
 Proof. vm_compute. reflexivity. Qed.
 
 Example ex_inv : Inv H_exec (run H_exec (init_state ex_cfg) ex_ops).
-Proof. apply (C01_history_exec ex_cfg ex_ops (length ex_ops)). exact ex_wf. Qed.
+Proof. apply (C01_history_exec ex_cfg ex_ops (length ex_ops)); [exact ex_wf|]. simpl. tauto. Qed.
+
+(* leftovers: a directory filled through the generic class and reopened under the local class.
+   Its two objects are leftovers; a truthful add of one of them covers it (it becomes read-only),
+   the other one stays unprotected - so Inv itself fails while the invariant with leftovers holds *)
+Definition ex_re_cfg : list (cls * alg) := [(Base, Md5)].
+Definition ex_re_ops : list op :=
+  [ OStage 0 (WDir [(k_a, [65])]); OReopen 0 Local; OAdd 0 [65] (H_exec Md5 [65]) ].
+Example ex_re_wf : wf_hist_b H_exec (init_state ex_re_cfg) ex_re_ops = true.
+Proof. vm_compute. reflexivity. Qed.
+Example ex_re_modes :
+  map (fun s => map (fun p => o_mode (snd p)) (s_objs s))
+      (st_stores (run H_exec (init_state ex_re_cfg) ex_re_ops)) = [[mode_ro; mode_rw]].
+Proof. vm_compute. reflexivity. Qed.
+Example ex_re_not_inv : ~ Inv H_exec (run H_exec (init_state ex_re_cfg) ex_re_ops).
+Proof. apply viol_b_sound. vm_compute. reflexivity. Qed.
+Example ex_re_invE :
+  InvE H_exec (leftover_hist H_exec (init_state ex_re_cfg) ex_re_ops lempty)
+       (run H_exec (init_state ex_re_cfg) ex_re_ops).
+Proof. apply (C01_history_leftover_checked_exec ex_re_cfg ex_re_ops 3). exact ex_re_wf. Qed.
 
 (* Inv is not trivially true: a store holding content under a name that is not its digest
    (what an untruthful external add - excluded by WfOp - leaves behind) violates it *)
